@@ -1,20 +1,21 @@
 """
-Per-property configuration of the check front end: translators to run, comparison rules for
-float tokens, wording for the evidence file.  Keys are optional.
+Per-property configuration of the check front end, one JSON file per property in tools/conf/:
+  claimed        true once the property has model + theorems + correspondence (goes into MANIFEST.json)
+  level_text     MANIFEST level_claimed.text     level_note   MANIFEST level_note
+  technique      (optional) MANIFEST technique
+  translators    (optional) scripts in tools/ run before the Lean build (regenerate LinfaSpec/Gen/*)
+  compare        (optional) {op name or "*": {"ulps": k} | {"rel": e, "abs": a} [, "min_margin": m]} for `~` float tokens
+  rule           evidence coverage.rule wording   assumptions / trusted   lists copied into the evidence
+  na_reason      (optional) reason shown under not_applicable while unclaimed
 """
-HOOK_COMMITS = []
+import glob
+import json
+import os
 
-CONF = {
-    "C01": {
-        "claimed": True,
-        "level_text": "Lean theorems for every n, every 2<=k<=n, every feature/target width and every closure: fold pairs are (complement, i-th block) in order, rows stay paired, iter_fold restores the buffers, cross_validate returns the per-fold mean / the first error. The model is tied to the Rust code by an exhaustive (n,k) correspondence run plus scripted cross-validation runs on every check.",
-        "level_note": "Trusted: Lean kernel; hand-written model of fold/iter_fold/cross_validate (ndarray chunking/concatenate/from_shape modelled by contract); harness, driver and comparison. A closure that panics mid-fold is outside the property.",
-        "rule": "exhaustive over all (n,k) with n<=40 (quick) / n<=120 (thorough), k in 0..n+1 for fold/iter_fold; "
-                "scripted cross-validation runs (errors in a third of them); random larger shapes; "
-                "distinct = distinct request lines",
-        "assumptions": [
-            "ndarray's axis_chunks_iter/concatenate/from_shape are modelled by their contract (chunks = consecutive blocks), validated on every case by the correspondence",
-            "behaviour when the user closure panics mid-fold is outside the property",
-        ],
-    },
-}
+_D = os.path.join(os.path.dirname(os.path.abspath(__file__)), "conf")
+CONF = {}
+for _f in sorted(glob.glob(os.path.join(_D, "C*.json"))):
+    CONF[os.path.basename(_f)[:-5]] = json.load(open(_f))
+
+_h = os.path.join(_D, "hooks.json")
+HOOK_COMMITS = json.load(open(_h)) if os.path.exists(_h) else []
